@@ -235,7 +235,20 @@ def gen_config(rng, small: bool = False, focus: str | None = None) -> dict:
     if focus == "resave" or (focus is None and cfg["backend"] == "raw" and cfg["max_shard"] is None
                              and rng.random() < 0.3):
         cfg.update(backend="raw", max_shard=None,
-                   resave={"threshold": rng.choice([0, 4, 16, 256, 5000]), "workers": rng.choice([None, 2])})
+                   resave={"threshold": rng.choice([0, 4, 16, 256, 5000]), "workers": rng.choice([None, 2]),
+                           # what the user did with the loaded initializers before saving again (seeded C07-r6m2:
+                           # tofile() of an already materialised sub-byte external tensor)
+                           "touch": rng.choice([None, None, "numpy", "tobytes", "array"])})
+    if focus == "presave":
+        cfg.update(backend="safetensors" if rng.random() < 0.7 else "raw", max_shard=None, resave=None)
+        for sp in cfg["inits"]:
+            if sp["kind"] in ("external", "misnamed"):
+                sp["kind"] = "mem"
+    if cfg["max_shard"] is None and cfg["resave"] is None and (focus == "presave" or rng.random() < 0.25):
+        # an earlier save of ANOTHER model to the same path in the same process (seeded C07-r6m3: state kept
+        # across saves); unsharded, so that the earlier data file is simply replaced
+        cfg["presave"] = {"nelems": [rng.choice([1, 3, 8, 64, 300]) for _ in range(rng.randrange(1, 4))],
+                          "threshold": rng.choice([0, 0, 4])}
     return cfg
 
 
@@ -319,6 +332,22 @@ def run_impl(cfg: dict, workdir: str) -> dict:
                 raise RuntimeError("injected")
             calls["n"] += 1
     threshold = cfg["threshold"]
+    if cfg.get("presave"):
+        import random as _random
+        prng = _random.Random(cfg["tseed"] ^ 0x5eed)
+        pvals = []
+        for j, ne in enumerate(cfg["presave"]["nelems"]):
+            arr = np.array([prng.randrange(256) for _ in range(ne)], dtype=np.uint8)
+            pvals.append(ir.Value(name=f"p{j}", const_value=ir.Tensor(arr, name=f"p{j}"),
+                                  type=ir.TensorType(ir.DataType.UINT8), shape=ir.Shape([ne])))
+        pg = ir.Graph(inputs=[], outputs=[], nodes=[], initializers=pvals, name="pre", opset_imports={"": 20})
+        pm = ir.Model(pg, ir_version=10)
+        pcfg = dict(cfg, max_shard=None, alignment=None, align_threshold=0)
+        try:
+            _save(ir, pm, pcfg, path, cfg["presave"]["threshold"], None)
+        except Exception as e:  # noqa: BLE001
+            return {"order": order, "sizes": sizes, "outcome": "presave-raise:" + type(e).__name__, "restored": True,
+                    "same_objects": True, "dup_names_across_graphs": False, "threshold_used": threshold}
     try:
         _save(ir, model, cfg, path, threshold, cfg["max_workers"], callback)
     except Exception as e:  # noqa: BLE001
@@ -334,6 +363,19 @@ def run_impl(cfg: dict, workdir: str) -> dict:
         # re-save the loaded model in place (same model path, same data path): its external tensors live in
         # the very file that is being replaced
         threshold = cfg["resave"]["threshold"]
+        touch = cfg["resave"].get("touch")
+        if touch:
+            for gr in loaded.graphs():
+                for v in gr.initializers.values():
+                    try:
+                        if touch == "numpy":
+                            v.const_value.numpy()
+                        elif touch == "tobytes":
+                            v.const_value.tobytes()
+                        else:
+                            np.asarray(v.const_value)
+                    except Exception:  # noqa: BLE001  (reading is judged below, not here)
+                        pass
         objs2 = [(v, v.const_value) for gr in loaded.graphs() for v in gr.initializers.values()]
         try:
             _save(ir, loaded, cfg, path, threshold, cfg["resave"]["workers"])
@@ -720,7 +762,7 @@ def run(ck) -> None:
             with open(os.path.join(corpus_dir, fn)) as f:
                 cfgs.append(json.load(f))
     for i in range(n_cases):
-        focus = {1: "aligned-shards", 2: "resave"}.get(i % 5)
+        focus = {1: "aligned-shards", 2: "resave", 3: "presave"}.get(i % 5)
         cfgs.append(gen_config(ck.rng, small=(i % 3 == 0), focus=focus))
     oracle_failures = []
     for i, cfg in enumerate(cfgs):
